@@ -155,14 +155,9 @@ def run(repo, rep, tier):
             if attr == 'DB_PER_THREAD':
                 ok = fid in TABLE_MANAGERS
                 if ok:
-                    # key must be defined as threading.get_ident() in the same function
-                    keys = set()
-                    for s in walk_no_nested(f):
-                        if isinstance(s, ast.Subscript) and attr_chain(s.value) and attr_chain(s.value).endswith('DB_PER_THREAD'):
-                            keys.add(unparse(s.slice))
-                    kdefs = {k: [unparse(a.value) for a in walk_no_nested(f) if isinstance(a, ast.Assign) and unparse(a.targets[0]) == k] for k in keys}
-                    ok = bool(keys) and all(v == ['threading.get_ident()'] for v in kdefs.values())
-                    rep.check('writers', '%s: per-thread registry is keyed by threading.get_ident()' % fid, ok, node, 'per-thread table registry keyed by %s: two tasks can share an entry' % kdefs)
+                    # what get_db / thread_exit do with the registry (key = the calling thread's identity, own entry only) is decided by interpretation:
+                    # rule 'registry' below (props/_dbcopy.check_registry)
+                    rep.ob('writers', '%s: the per-thread registry is written by its manager' % fid, True)
                 else:
                     rep.check('writers', 'registry DB_PER_THREAD only written by get_db/thread_exit', False, node, '%s writes the per-thread registry (%s)' % (fid, how))
             elif attr == 'MASTER_DB':
